@@ -353,6 +353,11 @@ impl Report {
         *self.replay_case.lock().unwrap() = Some(normalise_case(&case));
     }
 
+    /// For replay entries that re-run one part of a check and judge only the saved case.
+    pub fn replay_case_slot(&self) -> std::sync::MutexGuard<'_, Option<String>> {
+        self.replay_case.lock().unwrap()
+    }
+
     pub fn violation(&self, signature: &str, case: Value, message: &str) {
         if let Some(want) = self.replay_case.lock().unwrap().as_ref() {
             if normalise_case(&case) != *want {
